@@ -784,7 +784,7 @@ fn main() {
         run.note(format!("VERIF_SELFTEST={} — the SDK's output is corrupted on purpose", selftest()));
     }
 
-    let per_kind: u32 = run.scale(150, 40000);
+    let per_kind: u32 = run.scale(3000, 40000);
     for kind in assets::KINDS {
         let kind: &'static str = kind;
         let n = if kind == "avi" { per_kind * 2 } else { per_kind };
@@ -792,7 +792,7 @@ fn main() {
     }
     // the toolkit's spec-valid layouts that the SDK's parsers are known to mis-handle
     let mut vcases = vec![];
-    let nv = run.scale(6u64, 300u64);
+    let nv = run.scale(20u64, 300u64);
     for (kind, variant) in assets::VARIANTS {
         for i in 0..nv {
             let existing = if i % 2 == 0 { None } else { Some(MIN_STORE + (i as usize * 37) % 900) };
